@@ -306,7 +306,7 @@ class C07(Check):
             'acts; optional run(till=T) with T >= start. Oracle: C01 clock model + independent evaluation of the trigger '
             'time. non-trivial = notification already true on entry, or trigger and completion in one time step, or '
             'nesting >= 2 untils, or till; distinct by sha1.')
-    budgets = {'quick': dict(examples=2400, procs=4), 'thorough': dict(examples=40000, procs=16)}
+    budgets = {'quick': dict(examples=2400, procs=4), 'thorough': dict(examples=200000, procs=16)}
     level_text = ('For every generated program the exit time of every block must equal min(trigger, completion, enclosing '
                   'triggers) from the model, every event before that time must happen and none after it, blocks ended by '
                   'their own notification raise nothing, the activity continues per the model afterwards, and with till=T '
